@@ -103,6 +103,29 @@ def rewrite_possible(tok_in, tok_out, words, salt):
 
 # ------------------------------------------------------------------ C10
 
+_SPACES = None
+
+
+def word_hypotheses(w):
+    """the hypotheses of the Lean no-survival theorem (`WordOK` + `spaceFree`), computed independently with `re`:
+    non-empty; first and last character match no hex digit under IGNORECASE; no six consecutive characters that all
+    match hex digits; no character matches white space"""
+    global _SPACES
+    if _SPACES is None:
+        _SPACES = [chr(c) for c in range(0x110000) if re.match(r"\s", chr(c))]
+    if not w:
+        return False
+    def m(x, targets):  # noqa
+        p = re.compile(re.escape(x), re.IGNORECASE)
+        return any(p.fullmatch(t) for t in targets)
+    hexy = [m(x, "0123456789abcdef") for x in w]
+    if hexy[0] or hexy[-1]:
+        return False
+    if any(all(hexy[i:i + 6]) for i in range(len(w) - 5)):
+        return False
+    return not any(m(x, _SPACES) for x in w)
+
+
 def words_scope(res, pid, rng, tier):
     sess, fails = Sess(), []
     rounds = 18 if tier == "thorough" else 9
@@ -123,13 +146,19 @@ def words_scope(res, pid, rng, tier):
                              if any(s.lower() in w for s in words))
         lines = [gen_word_line(rng, words, conflicting[:8]) for _ in range(60 if tier == "thorough" else 30)]
         lines += ["%s %s\n" % (rand_case(rng, c), words[0]) for c in conflicting[:6]]
+        # the theorem's hypotheses per listed word: the model's computable check against an independent one
+        lw = sorted(set(w.lower() for w in words), key=lambda x: (-len(x), x))
+        thy = {w: word_hypotheses(w) for w in lw}
+        sess.op("fawordok " + t.id, lambda: "ok " + (";".join("%s:%d" % (cps(w), thy[w]) for w in lw) if lw else "-"), {"cfg": cfg.describe()})
+        res.count("words_meeting_theorem_hypotheses", sum(thy.values()))
+        res.count("words_outside_theorem_hypotheses", len(thy) - sum(thy.values()))
         for ln in lines:
             rr = t.line(ln)
-            plans.append((cfg, words, set(conflicting), hyp, ln, rr))
-    dis = sess.finish(post=fa.model_out)
+            plans.append((cfg, words, set(conflicting), hyp, ln, rr, thy))
+    dis = sess.finish(post=lambda x: x if re.match(r"ok (-|[\d.]+:[01](;[\d.]+:[01])*)$", x) else fa.model_out(x))
     res.evaluations += len(sess.lines)
     res.traces += rounds
-    for cfg, words, confl, hyp, ln, rr in plans:
+    for cfg, words, confl, hyp, ln, rr, thy in plans:
         out = fa.out_text(rr)
         if out is None:
             fails.append({"kind": "sensitive-word anonymization raised", "cfg": cfg.describe(), "line": ln, "result": rr})
@@ -146,6 +175,11 @@ def words_scope(res, pid, rng, tier):
                     fails.append({"kind": "a token that is a reserved word was changed", "cfg": cfg.describe(), "line": ln,
                                   "output": out, "token": a})
                 continue
+            for w, ok_ in thy.items():
+                # the statement of `no_listed_word_survives_in_token`, on the implementation's own output
+                if ok_ and re.search(re.escape(w), b, re.IGNORECASE):
+                    fails.append({"kind": "a listed sensitive word (meeting the theorem's hypotheses) survives in a token", "cfg": cfg.describe(),
+                                  "line": ln, "output": out, "word": w, "token_in": a, "token_out": b})
             if hyp:
                 for w in words:
                     if ci_contains(b, w):
@@ -601,6 +635,50 @@ def structure_scope(res, pid, rng, tier):
     res.evaluations += 1
     if [x[len(x.rstrip("\r\n")):] for x in o.splitlines(True)] != [x[len(x.rstrip("\r\n")):] for x in t.splitlines(True)]:
         fails.append({"kind": "line terminators changed", "input": t, "output": o})
+    return [], fails
+
+
+def order_scope(res, pid, rng, tier):
+    """every ordered pair of recognised line forms as a two-line text: each line's output must be what the line gives
+    alone, up to the pseudonym number (C12: a line depends on its own input plus which secrets were seen before)"""
+    fails = []
+    cfg = fa.FaCfg(salt=SALTS[res.seed % len(SALTS)], pwd=True)
+    lines = []
+    for t, cs in L.FORMS:
+        lines.append(t.format(L.gen_secret(rng, cs[0])) + "\n")
+        if tier == "thorough" and len(cs) > 1:
+            lines.append(t.format(L.gen_secret(rng, cs[-1])) + "\n")
+    for t in L.SCRUB_FORMS + L.AWS_FORMS:
+        lines.append(t.format("".join(rng.choice(L.B64) for _ in range(32))) + "\n")
+    # forms with ordinary words after the secret, and a key-chain line (matched by a late group only)
+    lines += ["  key-string 7 0822455D0A16\n", " standby 2 authentication md5 key-string s3cr3tX timeout 30\n",
+              "set password ENC yjyqq\n", " neighbor 10.0.0.1 password 7 0822455D0A16 extra\n", "snmp-server community c0mmunityZ RO 10\n"]
+    norm = lambda s: re.sub(r"netconanRemoved\d+|\$1\$\S+|\$6\$\S+|\$9\$[^\s\";]+|\b[0-9A-Fa-f]{10,}\b|\b\d{20,}\b", "<P>", s)  # noqa
+    alone = []
+    for ln in lines:
+        try:
+            alone.append(norm(anon_text(cfg, ln)))
+        except Exception as e:  # noqa
+            alone.append(None)
+            fails.append({"kind": "anonymize_io raised", "line": ln, "exc": repr(e)})
+    n = len(lines)
+    for i in range(n):
+        for j in range(n):
+            if i == j or alone[i] is None or alone[j] is None:
+                continue
+            res.evaluations += 1
+            try:
+                out = anon_text(cfg, lines[i] + lines[j]).split("\n")
+            except Exception as e:  # noqa
+                fails.append({"kind": "anonymize_io raised", "text": lines[i] + lines[j], "exc": repr(e)})
+                continue
+            got = [norm(out[0] + "\n"), norm(out[1] + "\n")] if len(out) >= 3 else None
+            if got != [alone[i], alone[j]] and len(fails) < 12:
+                fails.append({"kind": "a line's output depends on the line before it beyond pseudonym numbering", "salt": cfg.salt,
+                              "first_line": lines[i], "second_line": lines[j], "output": out,
+                              "first_alone": alone[i], "second_alone": alone[j]})
+    res.nt(("order_pairs", n))
+    res.count("order_pairs", n * (n - 1))
     return [], fails
 
 
